@@ -4,6 +4,7 @@ import (
 	"context"
 	"errors"
 	"fmt"
+	"runtime"
 	"strings"
 
 	"google.golang.org/protobuf/proto"
@@ -221,6 +222,10 @@ func buildGroup(rng *vk.Rand, nOps int) *Prog {
 			members[0] = member(0)
 			members[n-1] = member(4)
 		}
+		// the strategies that wait for every member ("will not return until all executions have completed") with a
+		// caller whose own context ends mid-run: each member writes its own plain slot, the caller reads all slots once
+		// the call has returned. The wait is what orders the two.
+		callerCancels := !isLeaky && strategy != group.ExecutionStrategyOne && n > 1 && rng.Chance(1, 3)
 		direct := rng.Bool()
 		name := fmt.Sprintf("group.Execute(%d)", int(strategy))
 		if direct {
@@ -234,6 +239,36 @@ func buildGroup(rng *vk.Rand, nOps int) *Prog {
 				one proto.Message
 				err error
 			)
+			members := members
+			var slots []int
+			if callerCancels {
+				cctx, cancel := context.WithCancel(ctx)
+				defer cancel()
+				ctx = cctx
+				slots = make([]int, n)
+				inner := members
+				members = make([]group.Member, n)
+				for i := range members {
+					i := i
+					members[i] = func(c context.Context) (proto.Message, error) {
+						if i == 0 {
+							cancel()
+						} else {
+							for k := 0; k < 3*i; k++ {
+								runtime.Gosched()
+							}
+						}
+						m, e := inner[i](c)
+						slots[i] = i + 1
+						return m, e
+					}
+				}
+			}
+			defer func() {
+				for i := range slots {
+					g.sink += uint64(slots[i])
+				}
+			}()
 			if !direct {
 				res, err = group.Execute(ctx, strategy, members)
 			} else {
